@@ -195,6 +195,22 @@ def t_filter_halfopen(f):
     return [Filter((C(i[0]) >= 1) & (C(i[0]) < 5))]
 
 
+def t_filter_open(f):
+    """both comparisons strict"""
+    i = f.ints()
+    if not i:
+        raise Skip()
+    return [Filter((C(i[0]) > 1) & (C(i[0]) < 5))]
+
+
+def t_filter_swapped(f):
+    """upper bound first: never an inclusive range, whatever the comparison operators"""
+    i = f.ints()
+    if not i:
+        raise Skip()
+    return [Filter((C(i[0]) <= 5) & (C(i[0]) >= 1))]
+
+
 def t_filter_closed(f):
     i = f.ints()
     if not i:
@@ -237,7 +253,7 @@ def let_twice_pairs(prog):
 def family_c06(tier, seed):
     import random
     alpha = dict(ALPHABET, filter_and=t_filter_and, derive_lit=t_derive_lit, filter_halfopen=t_filter_halfopen, filter_closed=t_filter_closed,
-                 derive_halfopen=t_derive_halfopen)
+                 derive_halfopen=t_derive_halfopen, filter_open=t_filter_open, filter_swapped=t_filter_swapped)
     bases = list(enumerate_family(2, heads=("sel",), alphabet=alpha))
     # sort -> take -> row-preserving transform: the prefix ending in `take` is the interesting rewrite site
     from families import build
